@@ -90,6 +90,17 @@ func execCdesc(c px.Context, args []sx.Sexp) core.Result {
 		return res("FAIL panic IsAssignable")
 	}
 	ds, bad := parseDescription(text, "function "+lat.Subject+":")
+	for _, d := range ds {
+		if d.kind == "utr" {
+			// the expected type holds an unresolved type reference: `describe` reports that before anything else, whatever the
+			// actual type (such an expectation is outside the property's quantifier; no crash and a readable structure are still required)
+			tags = append(tags, "ckind:utr")
+			if len(ds) != 1 || !strings.Contains(text, lat.Subject) {
+				return res("FAIL cdesc-utr-shape an unresolved reference is not reported as the one mismatch naming the subject: " + firstLine(text))
+			}
+			return core.Result{Out: out, Pred: "n/a", NonTrivial: true, Tags: tags}
+		}
+	}
 	switch {
 	case text == "" && !asg:
 		return res("FAIL cdesc-empty-not-asg nothing to describe although " + string(eb) + " does not accept " + string(ab))
@@ -233,6 +244,21 @@ func genCallable(g *core.G) {
 		for _, other := range []string{"Integer", "Undef", "Type[Callable]", "Struct[{cb => Integer}]", "Any", "Variant[Integer, String]"} {
 			g.Emit("@cdesc " + hexs(e) + " " + hexs(other))
 			g.Emit("@cdesc " + hexs(other) + " " + hexs(e))
+		}
+	}
+	// expectations with an unresolved type reference (the scan in front of the guard of `describe`) and Init expectations
+	// (describeInitType: one description per signature of the constructor, below a `signature` path element)
+	refs := []string{"No::Such", "Array[No::Such]", "Variant[Integer, No::Such]", "Optional[No::Such]", "Struct[{a => No::Such}]",
+		"Hash[String, Tuple[Integer, No::Such]]", "Callable[[No::Such], Integer]"}
+	inits := []string{"Init[Integer]", "Init[String]", "Init[Timespan]", "Init[Binary]", "Init[Boolean]", "Init[Float]", "Init[Array[Integer]]",
+		"Init[Timestamp]", "Init[SemVer]", "Init[Regexp]", "Optional[Init[Integer]]", "Variant[Init[Timespan], Undef]",
+		"Struct[{a => Init[Integer]}]", "Array[Init[Binary]]", "Tuple[Init[Integer], Init[String]]"}
+	others := []string{"Integer", "String", "Float", "Undef", "Regexp", "Array[Integer]", "Array[String]", "Hash[String, Integer]", "Binary",
+		"Struct[{a => Regexp}]", "Struct[{a => Integer}]", "Tuple[Regexp]", "Tuple[Integer, Regexp]", "Tuple[String, String]", "Any", "No::Such",
+		"Struct[{string => String[1]}]", "Struct[{string => Integer}]", "Tuple[Integer, Integer, Integer, Integer]", "Variant[String, Regexp]"}
+	for _, e := range append(refs, inits...) {
+		for _, a := range others {
+			g.Emit("@cdesc " + hexs(e) + " " + hexs(a))
 		}
 	}
 	for l := range lambdaPool {
